@@ -213,9 +213,9 @@ PROPS["C14"] = dict(
     level="other", units=["geom"], kani=["k_shim_transform"], lemmas=["lattice-area"],
     explanation="Unbounded (Verus, all cell parameters): the real to_cartesian/to_cartesian_point/center map (x,y) to x*A + y*B with A=(a,0), B=(b cos t, b sin t); to_cartesian_isometry and "
                 "to_cartesian_translate keep the linear part and map the translation to C(t) resp. C(t) + n*A + m*B; get_corners (R16) returns the Cartesian images of (+-1/2, +-1/2); area = A x B (z3: equals a b sin t >= 0). "
-                "The real periodic_images (iproduct!.filter.map desugared by R16) is proved sound and complete for every shell count: each element is the placement translated by some n*A+m*B with |n|,|m| <= k (the untranslated one only when asked), orientation unchanged, and every such offset occurs; the number of images is (2k+1)^2, minus one when the untranslated one is excluded (images.count), which with completeness gives 'each once'.",
+                "The real periodic_images (iproduct!.filter.map desugared by R16) is proved sound and complete for every shell count: each element is the placement translated by some n*A+m*B with |n|,|m| <= k (the untranslated one only when asked), orientation unchanged, and every such offset occurs; the number of images is (2k+1)^2, minus one when the untranslated one is excluded (images.count); the image of offset (n, m) sits at the explicit row-major position img_count(n, m) of the sequence (images.at) and that position map is injective on the offsets of the shell (images.injective, a counted lemma obligation) — 'each once'.",
     assumptions=_GEOM_ASSUMPTIONS,
-    undecided=["'each once' is decided as: as many images as offsets, and every offset present; the pigeonhole step from these two to 'no offset twice' is a paper step"],
+    undecided=["two different offsets could in principle give the same TRANSFORM (they do not when the lattice vectors are independent, i.e. a, b > 0 and sin t != 0); 'each once' is decided per offset, which is what the property counts"],
 )
 PROPS["C15"] = dict(
     level="other", units=["geom"], kani=["k_wrap_range", "k_shim_transform"], lemmas=[],
